@@ -52,6 +52,7 @@ type Tree struct {
 	Acts          []TAct                 `json:"acts"`
 	Trigger       *Trigger               `json:"trigger,omitempty"`
 	CloseAtEnd    bool                   `json:"close_at_end"`
+	Static        bool                   `json:"static"`      // C08: the server does not change while nodes become ready
 	NoOverflow    bool                   `json:"no_overflow"` // premise: every consumer keeps its backlog below the buffer
 	GetCheck      bool                   `json:"get_check"`
 	LogYield      bool                   `json:"log_yield"`
@@ -138,6 +139,7 @@ func runTree(sci interface{}) {
 	h.NoRelist = sc.PeriodMs <= 0
 	h.ExpectNoOverflow = sc.NoOverflow
 	h.GetCheck = sc.GetCheck
+	h.StaticAtReady = sc.Static
 	h.PerNodeOverflow = sc.Prop == "C10"
 	t := &treeRun{sc: sc, h: h, srv: srv, asyncDone: make(chan struct{}, 64)}
 	h.RootDown = t.rootDown
@@ -292,6 +294,8 @@ func (t *treeRun) act(a TAct) {
 		if n := t.node(a.Node); n != nil && n.BlockHandler != nil && !detsim.IsClosed(n.BlockHandler) {
 			close(n.BlockHandler)
 		}
+	case "unfreeze":
+		h.StaticAtReady = false
 	case "api":
 		t.apiProbe()
 	}
